@@ -105,7 +105,11 @@ impl Runtime {
     pub fn launch(self: &Arc<Self>, proc: &Arc<Process>) {
         debug!("scheduler::launch");
         let proc = proc.clone();
+        #[cfg(acts_verif)]
+        let _verif_unit = crate::verif::InFlight::new();
         tokio::spawn(async move {
+            #[cfg(acts_verif)]
+            let _verif_unit = _verif_unit;
             proc.start();
         });
     }
@@ -286,6 +290,10 @@ impl Runtime {
                     time::interval(Duration::from_millis(default_interval_millis as u64));
                 loop {
                     intv.tick().await;
+                    #[cfg(acts_verif)]
+                    if crate::verif::is_manual_tick() {
+                        continue;
+                    }
                     evt.emit_tick();
                 }
             });
@@ -315,7 +323,11 @@ impl Runtime {
 
         let action = Action::new(pid, tid, event, &vars);
         let scher = self.clone();
+        #[cfg(acts_verif)]
+        let _verif_unit = crate::verif::InFlight::new();
         tokio::spawn(async move {
+            #[cfg(acts_verif)]
+            let _verif_unit = _verif_unit;
             let _ = scher
                 .do_action(&action)
                 .map_err(|err| error!("scher::return_to_act {}", err.to_string()));
